@@ -42,6 +42,28 @@ type walFile struct {
 	synced  int64 // offset covered by the last completed Sync
 	recs    []walRec
 	tailIdx uint64
+	closeOnce sync.Once
+}
+
+func (f *walFile) closeInner() (err error) {
+	f.closeOnce.Do(func() {
+		defer func() { recover() }()
+		err = f.w.Close()
+	})
+	return
+}
+
+// CloseAll closes every writer of the incarnation (idempotent).
+func (x *WalX) CloseAll() {
+	x.mu.Lock()
+	var fs []*walFile
+	for _, f := range x.files {
+		fs = append(fs, f)
+	}
+	x.mu.Unlock()
+	for _, f := range fs {
+		f.closeInner()
+	}
 }
 
 // WalX implements consensus.WALManager over the real file WAL, tracks which
@@ -207,7 +229,7 @@ func (w *walWriterX) Sync() error {
 }
 
 func (w *walWriterX) Close() error {
-	return w.f.w.Close()
+	return w.f.closeInner()
 }
 
 func (x *WalX) opsTail(n int) []string {
@@ -360,10 +382,7 @@ func (x *WalX) crash(at *walFile, cp *CrashPoint, where string) {
 	// stop the housekeeping goroutines of the dead incarnation's writers (the
 	// image is already taken; flushing into the old directory is harmless)
 	for _, f := range x.files {
-		go func(w consensus.WALWriter) {
-			defer func() { recover() }()
-			w.Close()
-		}(f.w)
+		go f.closeInner()
 	}
 	x.mu.Unlock()
 	c.Mon.onCrash(x.inc, desc)
